@@ -56,8 +56,10 @@ Proof. split; vm_compute; reflexivity. Qed.
    statement by statement, in the world-level monad of Base/MiniPyW.v (an exception raised by `downstream.update` unwinds
    the loop; the returned list of awaitables is represented by the status only).  Base/BridgeEmit.v proves that they are
    the model's retain / release / push: `downstream.update` is the parameter call_update (log the call, evaluate the node's
-   update, run its action list with the recursive push), `self.downstreams` is read through the model's downs, and the
-   model's deliver is that call followed by the release - unless the call unwinds. *)
+   update, run its action list with the recursive push), `self.downstreams` is read through the model's downs, one turn
+   of the loop is the model's hand (the test `downstream not in self.downstreams` is attached: membership in downs of the
+   world at the time of the test; a child that left since the snapshot is not called and the reference retained for it is
+   released), and the model's deliver is the call followed by the release - unless the call unwinds. *)
 From SZ Require Import Base.MiniPyW Base.BridgeEmit.
 Theorem C10_emit_matches_source :
   forall fuel g depth n w x m,
@@ -68,7 +70,7 @@ Print Assumptions C10_emit_matches_source.
 Theorem C10_emit_matches_source_any_callee :
   forall emitfrom g depth n w x m,
   (let ds := downs g w n in
-   fold_left (deliver emitfrom g depth n x m) ds (retain w m (Z.of_nat (length ds)), SOk)) =
+   fold_left (hand emitfrom g depth n x m) ds (retain w m (Z.of_nat (length ds)), SOk)) =
   Gen.KN__emit.gen_emit (fun w => downs g w n) (call_update emitfrom g depth n) w x m.
 Proof. exact bridge_emit_gen. Qed.
 Print Assumptions C10_emit_matches_source_any_callee.
